@@ -301,7 +301,11 @@ def finish(mod, pid, tier, seed, results, lost, wall):
 
     lines = []
     replay_paths = []
-    for v in violations[:10]:
+    seen_hashes = set()
+    for v in violations:
+        if v['hash'] in seen_hashes or len(seen_hashes) >= 10:
+            continue
+        seen_hashes.add(v['hash'])
         path = os.path.join(ROOT, 'out', 'replays', f'{pid}-{v["hash"]}.json')
         with open(path, 'w') as f:
             json.dump({'property': pid, 'seed': seed, 'tier': tier, 'case': v['case'],
